@@ -86,32 +86,44 @@ func (xaManager *XAResourceManager) xaTwoPhaseTimeoutChecker() {
 	for {
 		select {
 		case <-ticker.C:
-			xaManager.resourceCache.Range(func(key, value any) bool {
-				source, ok := value.(*DBResource)
-				if !ok {
-					return true
-				}
-				if source.IsShouldBeHeld() {
-					return true
-				}
-
-				source.GetKeeper().Range(func(key, value any) bool {
-					connectionXA, isConnectionXA := value.(*XAConn)
-					if !isConnectionXA {
-						return true
-					}
-
-					if time.Now().Sub(connectionXA.prepareTime) > xaManager.config.TwoPhaseHoldTime {
-						if err := connectionXA.CloseForce(); err != nil {
-							log.Errorf("Force close the xa xid:%s physical connection fail", connectionXA.txCtx.XID)
-						}
-					}
-					return true
-				})
-				return true
-			})
+			xaManager.checkTwoPhaseTimeout()
 		}
 	}
+}
+
+// checkTwoPhaseTimeout is one pass of the two-phase timeout checker: on resources whose server can
+// finish a prepared branch from another session, a held connection whose branch has been prepared
+// for longer than the hold time is closed and released.
+func (xaManager *XAResourceManager) checkTwoPhaseTimeout() {
+	xaManager.resourceCache.Range(func(key, value any) bool {
+		source, ok := value.(*DBResource)
+		if !ok {
+			return true
+		}
+		if source.IsShouldBeHeld() {
+			return true
+		}
+
+		source.GetKeeper().Range(func(key, value any) bool {
+			connectionXA, isConnectionXA := value.(*XAConn)
+			if !isConnectionXA {
+				return true
+			}
+
+			if connectionXA.prepareTime.IsZero() {
+				// still in phase one: nothing is prepared on this connection yet
+				return true
+			}
+
+			if time.Now().Sub(connectionXA.prepareTime) > xaManager.config.TwoPhaseHoldTime {
+				if err := connectionXA.CloseForce(); err != nil {
+					log.Errorf("Force close the xa xid:%s physical connection fail", connectionXA.txCtx.XID)
+				}
+			}
+			return true
+		})
+		return true
+	})
 }
 
 func (xaManager *XAResourceManager) GetBranchType() branch.BranchType {
